@@ -214,7 +214,7 @@ def gen_opts():
 
 
 def worker(widx, seed, tier, stats):
-    n = {'quick': 30, 'thorough': 800}[tier]
+    n = {'quick': 30, 'thorough': 500}[tier]
     runner.run_given(cases(gen_opts()), body, seed, n, stats, shrink=(tier == 'thorough'))
 
 
